@@ -127,12 +127,14 @@ _PIC = [False]      # position-independent programs: no absolute reference, '.' 
 def gen_operand(rng, nlabels, allow_reg=True):
     """returns (mode bits, extension ('abs'|'rel', expr) or None, source text maker)"""
     r = rng.random()
-    n = rng.randrange(6)
+    # every general register, r6/sp and r7/pc included: an index word e(pc) / @e(r7) holds the absolute value of e like any other
+    n = rng.choice([0, 1, 2, 3, 4, 5, 6, 7, 7])
+    rn = rng.choice(["r%d" % n] + (["sp"] if n == 6 else []) + (["pc", "pc"] if n == 7 else []))
     if _PIC[0]:
         if r < 0.12 and allow_reg:
-            return n, None, lambda L: "r%d" % n
+            return n, None, lambda L: rn
         if r < 0.25:
-            return 0o20 | n, None, lambda L: "(r%d)+" % n
+            return 0o20 | n, None, lambda L: "(%s)+" % rn
         e = gen_expr(rng, nlabels if rng.random() < 0.6 else 0, "addr")
         if e[0][0] < 0:
             e = [(1, ("here",), True)] + e
@@ -140,15 +142,15 @@ def gen_operand(rng, nlabels, allow_reg=True):
             return 0o67, ("rel", e), lambda L: e_src(e, L)
         return 0o77, ("rel", e), lambda L: "@" + e_src(e, L)
     if r < 0.14 and allow_reg:
-        return n, None, lambda L: "r%d" % n
+        return n, None, lambda L: rn
     if r < 0.22:
-        return 0o10 | n, None, lambda L: "(r%d)" % n
+        return 0o10 | n, None, lambda L: "(%s)" % rn
     if r < 0.28:
-        return 0o20 | n, None, lambda L: "(r%d)+" % n
+        return 0o20 | n, None, lambda L: "(%s)+" % rn
     if r < 0.32:
-        return 0o40 | n, None, lambda L: "-(r%d)" % n
+        return 0o40 | n, None, lambda L: "-(%s)" % rn
     if r < 0.35:
-        return 0o30 | n, None, lambda L: "@(r%d)+" % n
+        return 0o30 | n, None, lambda L: "@(%s)+" % rn
     if r < 0.47:
         e = gen_expr(rng, nlabels, "any")
         return 0o27, ("abs", e), lambda L: "#" + e_src(e, L)
@@ -159,10 +161,10 @@ def gen_operand(rng, nlabels, allow_reg=True):
         e = gen_expr(rng, nlabels, "any")
         if e[0][0] < 0 or e[0][1][0] == "k":
             e = [(1, ("lab", 0), True)] + e if nlabels else [(1, ("here",), True)] + e
-        return 0o60 | n, ("abs", e), lambda L: "%s(r%d)" % (e_src(e, L), n)
+        return 0o60 | n, ("abs", e), lambda L: "%s(%s)" % (e_src(e, L), rn)
     if r < 0.72:
         e = gen_expr(rng, nlabels, "addr")
-        return 0o70 | n, ("abs", e), lambda L: "@%s(r%d)" % (e_src(e, L), n)
+        return 0o70 | n, ("abs", e), lambda L: "@%s(%s)" % (e_src(e, L), rn)
     if r < 0.90:
         e = gen_expr(rng, nlabels, "any" if rng.random() < 0.3 else "addr")
         if e[0][0] < 0:
@@ -239,9 +241,13 @@ def gen_program(rng, allow_word, align_mods, base0=0, nst=None):
                 stmts.append(Stmt("bytediff", None, [("bytediff", None)], 1))
             else:
                 stmts.append(Stmt("byte", lambda L, vals=vals: ".byte " + ", ".join("%o" % v for v in vals), [("fixed", vals)], n))
-        elif r < 0.92:
+        elif r < 0.89:
             n = rng.choice([1, 2, 3, 4])
             stmts.append(Stmt("blkb", lambda L, n=n: ".blkb %o" % n, [("fixed", [0] * n)], n))
+        elif r < 0.92 and not _PIC[0]:
+            # a reservation: with the base set, `. = . + n` is n zero bytes (the program is then assembled with `.link` first)
+            n = rng.choice([0, 1, 2, 4, 6, 0o20, 0o36])
+            stmts.append(Stmt("resv", lambda L, n=n: ". = . + %o" % n, [("resv", n)], n))
         elif align_mods and (align_mods[0] or align_mods[1]):
             counts, parity_ok = align_mods
             m = rng.choice(counts + ([2, 2] if parity_ok else []))
@@ -327,6 +333,9 @@ def finish_program(rng, stmts, labpos, base0):
                         aw.append((off, e_coef(p[1]) - 1))
                     nfield += 1
                     off += 2
+                elif p[0] == "resv":
+                    items.append("Resv %d" % p[1])
+                    off += p[1]
                 elif p[0] == "needeven":
                     items.append("NeedEven")
                 elif p[0] == "align":
@@ -398,8 +407,16 @@ def make_case(rng):
     allow_word = same_parity or rng.random() < 0.2
     stmts, labpos = gen_program(rng, allow_word, (mods, same_parity), bases[0])
     body, items, aw, total, nfield = finish_program(rng, stmts, labpos, bases[0])
-    return {"bases": bases, "body": body, "items": items, "aw": aw, "nfield": nfield, "total": total,
-            "last": [rng.random() < 0.5 for _ in bases], "kinds": sorted({s.kind for s in stmts})}
+    resv = any(st.kind == "resv" for st in stmts)
+    bases = list(bases)
+    neg = [rng.random() < 0.15 for _ in bases]
+    if rng.random() < 0.4:
+        # a fourth assembly: one of the bases again, written the other way (the law with difference 0)
+        k = rng.randrange(3)
+        bases.append(bases[k])
+        neg.append(not neg[k])
+    return {"bases": bases, "body": body, "items": items, "aw": aw, "nfield": nfield, "total": total, "neg": neg,
+            "last": [(not resv) and rng.random() < 0.5 for _ in bases], "kinds": sorted({s.kind for s in stmts})}
 
 
 def make_pic_case(rng):
@@ -420,12 +437,14 @@ def make_pic_case(rng):
             "last": [rng.random() < 0.5 for _ in bases], "kinds": sorted({s.kind for s in stmts} | {"pic"})}
 
 
-def at_base(body, b, last=False):
+def at_base(body, b, last=False, neg=False):
     """the transformation at_base b: `.link b` before the program -- or after it, where every address is
     still a polynomial in the unknown base while the program is compiled"""
+    # the same 16-bit base written as the negative number b - 2^16 (`.link -1000` is 177000)
+    lit = ("-%o" % (65536 - b)) if (neg and b > 0) else "%o" % b
     if last:
-        return [("t.mac", "%s\t.link %o\n" % (body, b))]
-    return [("t.mac", ".link %o\n%s" % (b, body))]
+        return [("t.mac", "%s\t.link %s\n" % (body, lit))]
+    return [("t.mac", ".link %s\n%s" % (lit, body))]
 
 
 def obs_term(o):
@@ -459,22 +478,30 @@ def py_law(aw, b1, i1, b2, i2):
 def run_cases(rep, cases, tag):
     jobs = []
     for c in cases:
-        for b, last in zip(c["bases"], c["last"]):
-            jobs.append(((at_base(c["body"], b, last),), {}))
+        c.setdefault("neg", [False] * len(c["bases"]))
+        for b, last, neg in zip(c["bases"], c["last"], c["neg"]):
+            jobs.append(((at_base(c["body"], b, last, neg),), {}))
     outs = impl.pmap("assemble", jobs)
     terms = []
+    at = 0
     for n, c in enumerate(cases):
-        c["outs"] = outs[3 * n:3 * n + 3]
-        obs = "[" + "; ".join("(%d, %s)" % (b, obs_term(o)) for b, o in zip(c["bases"], c["outs"])) + "]"
+        c["outs"] = outs[at:at + len(c["bases"])]
+        at += len(c["bases"])
+        lens = sorted({len(o["code"]) // 2 for o in c["outs"] if o["outcome"] == "ok"})
+        c["lens"] = lens
+        # images of different lengths break the law outright; they are not shipped to coqc (a mutant can make them 64 kB)
+        obs = "[" + "; ".join("(%d, %s)" % (b, obs_term(o) if len(lens) <= 1 else "ObsOther") for b, o in zip(c["bases"], c["outs"])) + "]"
         awt = "[" + "; ".join("(%d, %s)" % (o, C.zlit(k)) for o, k in c["aw"]) + "]"
         terms.append("((%s, %s, %s) : case)" % (c["items"], awt, obs))
     codes = C.run_case_files(ID + tag, "Base.Res Model.Poly Model.Reloc Run.C09Run", "Open Scope string_scope.\nOpen Scope Z_scope.",
                              C.shard(terms, 60), judge_expr="map judge cases")
     flat = [x for sh in codes for x in sh]
     for c, code in zip(cases, flat):
-        rep.add_eval(3)
+        rep.add_eval(len(c["bases"]))
         oks = [(b, list(bytes.fromhex(o["code"]))) for b, o in zip(c["bases"], c["outs"]) if o["outcome"] == "ok"]
-        rep.count("bases-ok:%d" % len(oks))
+        rep.count("bases-ok:%d/%d" % (len(oks), len(c["bases"])))
+        if any(c["neg"]):
+            rep.count("base-written-negative")
         for o in c["outs"]:
             if o["outcome"] != "ok":
                 rep.count("outcome:" + o["outcome"] + ":" + ",".join(sorted({d[1] for d in o["diags"] if d[0] != "warning"})))
@@ -483,14 +510,19 @@ def run_cases(rep, cases, tag):
         rep.count("abs-words:%s" % ("0" if not c["aw"] else ("1-3" if len(c["aw"]) <= 3 else "4+")))
         if c["nfield"] and len(oks) >= 2:
             rep.nontrivial(c["body"])
-        files = {"body": c["body"], "bases": c["bases"], "link_last": c["last"],
-                 "files_at_first_base": at_base(c["body"], c["bases"][0], c["last"][0])}
+        files = {"body": c["body"], "bases": c["bases"], "link_last": c["last"], "base_written_negative": c["neg"],
+                 "files_at_first_base": at_base(c["body"], c["bases"][0], c["last"][0], c["neg"][0])}
         obs = [{"base": b, "outcome": o["outcome"], "code": o.get("code"),
                 "errors": sorted({d[1] for d in o["diags"] if d[0] != "warning"}), "crash": o.get("crash")} for b, o in zip(c["bases"], c["outs"])]
         if any(o["outcome"] in ("crash", "hang", "harness-error") for o in c["outs"]):
             rep.violate("crash:" + str([o.get("crash") for o in c["outs"]])[:80], "the assembler crashed or hung", files, impl=obs)
             continue
-        if c.get("pic") and len(oks) < 3:
+        if len(c["lens"]) > 1:
+            rep.violate("law-length:" + c["body"][:50], "images of the same source have different lengths at different link bases (or at the "
+                        "same base written differently): %s bytes (expected %d everywhere)" % (c["lens"], c["total"]), files,
+                        impl=[{**o, "code": (o["code"] or "")[:200]} for o in obs])
+            continue
+        if c.get("pic") and len(oks) < len(c["bases"]):
             rep.violate("pic-rejected:" + c["body"][:50], "a program that refers to its own labels and to '.' only through branches and relative "
                         "operands (and whose branches are in reach) was rejected at a link base -- position-independent code assembles to the "
                         "same bytes at every base, also where its addresses wrap through 0o177777", files, impl=obs)
@@ -719,8 +751,9 @@ def replay(data):
         return False
     aw = [tuple(x) for x in inp.get("abs_by_construction", [])]
     res = []
-    for b, last in zip(inp["bases"], inp.get("link_last", [False] * 3)):
-        o = impl.assemble(at_base(inp["body"], b, last))
+    n = len(inp["bases"])
+    for b, last, neg in zip(inp["bases"], inp.get("link_last", [False] * n), inp.get("base_written_negative", [False] * n)):
+        o = impl.assemble(at_base(inp["body"], b, last, neg))
         print("base %o:" % b, o["outcome"], o.get("code"), sorted({d[1] for d in o["diags"] if d[0] != "warning"}))
         res.append((b, o))
     oks = [(b, list(bytes.fromhex(o["code"]))) for b, o in res if o["outcome"] == "ok"]
